@@ -140,6 +140,16 @@ def build_shape(shape, workdir, seed):
             inp["variable"] = {"name": "RH", "units": "%", "x0": None, "x1": None}
         paths, cpath = gen.materialize(ds, d, rng)
         return paths + ["-c", cpath]
+    elif shape == "large":
+        # a year of twice-daily runs at 30 stations: 12 600 cases (diagrams choose their number of bins from the sample size:
+        # more than 11 000 pairs is where that choice leaves its lower bound)
+        times = [1293840000 + 43200 * i for i in range(60)]
+        locs = [[1000 + i, 50.0 + 0.25 * i, 5.0 + 0.5 * i, 10.0 * i] for i in range(30)]
+        inps = [gen.make_input(rng, "big%d.nc" % k, "nc", times, [0, 6, 12, 18, 24, 36, 48], locs, has=("obs", "fcst", "pit"),
+                               thresholds=[0.0, 5.0, 10.0], quantiles=[0.1, 0.5, 0.9], miss=0.01, vrange=(0, 12)) for k in range(2)]
+        for c0, c1 in zip(inps[0]["cells"].values(), inps[1]["cells"].values()):
+            c1["obs"] = c0["obs"]
+        ds = {"inputs": inps, "clim": None}
     else:
         ds = gen.make_dataset(rng, n_inputs=1, fmt="text", miss=0.1, sparse=0.0)
     paths, _ = gen.materialize(ds, d, None)
@@ -165,6 +175,10 @@ def variant_args(v):
 def all_combos(metrics, tier):
     names = metrics + DIAGRAMS
     combos = []
+    # the large sample: every diagram, and a few scores, once without and once with a threshold
+    for m in DIAGRAMS + ["mae", "ets", "bs", "pit"]:
+        combos.append((m, None, "plot", "none", "large"))
+        combos.append((m, None, "plot", "r1", "large"))
     if tier == "thorough":
         for sh in SHAPES:
             for m in names:
@@ -306,9 +320,11 @@ def run_shard(desc, ctx):
     for i, combo in enumerate(combos):
         if i % desc["nshards"] != desc["shard"]:
             continue
+        if combo[4] not in shapes:
+            shapes[combo[4]] = build_shape(combo[4], ctx.workdir, seed)      # built only by the shards that use it
         run_one(ctx, shapes, combo)
 
 
 def replay(case, ctx):
-    shapes = {sh: build_shape(sh, ctx.workdir, case.get("seed", 0)) for sh in SHAPES}
+    shapes = {sh: build_shape(sh, ctx.workdir, case.get("seed", 0)) for sh in SHAPES + ["large"]}
     run_one(ctx, shapes, tuple(case["combo"]))
